@@ -68,6 +68,21 @@ def main():
     fn = find_func(tree, ["CSSStyleSheet", "insertRule"])
     chain = one((n for n in fn.body if isinstance(n, ast.If) and is_type_eq(n.test, "CHARSET_RULE")),
                 "`if rule.type == rule.CHARSET_RULE` chain in insertRule")
+    # statements `if rule.type == rule.X: log.error(...); return` in front of the chain: kinds a sheet never takes
+    refused = []
+    for n in fn.body:
+        if isinstance(n, ast.If) and n is not chain and isinstance(n.test, ast.Compare) and \
+                isinstance(n.test.left, ast.Attribute) and n.test.left.attr == "type":
+            if not (len(n.test.ops) == 1 and isinstance(n.test.ops[0], ast.Eq) and not n.orelse and len(n.body) == 2
+                    and isinstance(n.body[0], ast.Expr) and isinstance(n.body[0].value, ast.Call)
+                    and isinstance(n.body[0].value.func, ast.Attribute) and n.body[0].value.func.attr == "error"
+                    and isinstance(n.body[1], ast.Return) and n.body[1].value is None
+                    and n.lineno < chain.lineno):
+                raise Refused("insertRule: unexpected test on rule.type at line %d" % n.lineno)
+            k = attr_name(n.test.comparators[0], ("rule",))
+            if k not in consts:
+                raise Refused("unknown rule type constant %s" % k)
+            refused.append(k)
     branches = []
     node = chain
     while True:
@@ -102,6 +117,7 @@ def main():
         5: ["other_after_kinds"],
     }
     b.append("(* CSSStyleSheet.insertRule: kind tuples per branch, in source order *)")
+    b.append("Definition sheet_refused_kinds : list kind := %s." % klist(refused))
     b.append("Definition uc_kinds : list kind := %s." % klist(uc[0]))
     for i, nm in names.items():
         tups = type_tuples(wrap(branches[i][1]), consts)
@@ -144,7 +160,7 @@ def main():
         return (isinstance(e, ast.BoolOp) and isinstance(e.op, ast.Or) and isinstance(e.values[0], ast.Name)
                 and e.values[0].id == "expected" and isinstance(e.values[1], ast.Constant) and e.values[1].value == 0)
 
-    thr, nxt = {}, {}
+    thr, nxt, discarded, dthr = {}, {}, [], {}
     for hn in sorted(used):
         f = handlers.get(hn)
         if f is None:
@@ -166,7 +182,20 @@ def main():
             nx = None
         else:
             raise Refused("handler %s: unexpected return value" % hn)
-        inner = [n for n in ast.walk(f) if isinstance(n, ast.Return) and n is not rets[0]]
+        # a branch `if token[1] in css_parser.css.MarginRule.margins:` that builds no rule and returns the handler's
+        # own final value: the statement is consumed and discarded
+        discard_branches = []
+        for n in ast.walk(f):
+            if isinstance(n, ast.If) and "MarginRule.margins" in ast.unparse(n.test):
+                built_here = [c for s in n.body for c in classes_built(s)]
+                last = n.body[-1]
+                if not built_here:
+                    if not (isinstance(last, ast.Return) and ast.dump(last.value) == ast.dump(rv)):
+                        raise Refused("handler %s: margin branch builds no rule and does not return the final value" % hn)
+                    discard_branches.append(last)
+                    discarded.append("MARGIN_RULE")
+                    dthr["MARGIN_RULE"] = (th, nx)
+        inner = [n for n in ast.walk(f) if isinstance(n, ast.Return) and n is not rets[0] and n not in discard_branches]
         for n in inner:
             if not (isinstance(n.value, ast.Name) and n.value.id == "expected"):
                 raise Refused("handler %s: early return of something else than expected" % hn)
@@ -184,12 +213,18 @@ def main():
             if k in thr and (thr[k], nxt[k]) != (th, nx):
                 raise Refused("two handlers disagree for %s" % k)
             thr[k], nxt[k] = th, nx
+    for k, (th, nx) in dthr.items():
+        if k in thr:
+            raise Refused("%s is both built and discarded by the parser" % k)
+        thr[k], nxt[k] = th, nx
     if set(thr) != set(consts):
         raise Refused("parser handlers do not cover all kinds: missing %r" % sorted(set(consts) - set(thr)))
     b.append("(* CSSStyleSheet._setCssText: `if (expected or 0) > N` threshold (None: no test) and returned state\n"
              "   (None: max(1, expected or 0)) of the handler that builds each kind *)")
     b.append("Definition parse_threshold (k : kind) : option nat :=\n  match k with\n  " + "\n  ".join(
         "| %s => %s" % (k, "None" if thr[k] is None else "Some %d" % thr[k]) for k in order) + "\n  end.")
+    b.append("(* statements the parser consumes without keeping a rule *)")
+    b.append("Definition parse_discarded_kinds : list kind := %s." % klist(sorted(set(discarded))))
     b.append("Definition parse_next (k : kind) : option nat :=\n  match k with\n  " + "\n  ".join(
         "| %s => %s" % (k, "None" if nxt[k] is None else "Some %d" % nxt[k]) for k in order) + "\n  end.")
 
